@@ -333,6 +333,8 @@ pub const ITER_ROOTS: &[&str] = &[
     "7k/5Q2/8/8/8/8/8/K7 w - - 0 1",
     "7k/8/6Q1/8/8/8/8/K7 b - - 0 1",
     "8/8/3k4/8/3pP3/8/8/3RK3 b - e3 0 1",
+    // 18 move-list entries (16 movers + two en-passant entries): the list's capacity
+    "rnbqkbnr/1pp1pppp/p7/2PpP3/P6P/1P1P1PP1/8/RNBQKBNR w KQkq d6 0 1",
 ];
 
 fn check_position(run: &Run, p: &RefPos, tier: Tier, nprog: &AtomicU64) {
@@ -346,33 +348,45 @@ fn check_position(run: &Run, p: &RefPos, tier: Tier, nprog: &AtomicU64) {
     run.add("positions", 1);
     run.add("programs_with_promotion_position", legal.iter().any(|m| m.promo.is_some()) as u64 * progs.len() as u64);
     run.add("mask_alphabet_max", 0);
-    let (mut phases, mut nexts, mut lens, mut withrem, mut withep, mut tol) = (0u64, 0u64, 0u64, 0u64, 0u64, 0u64);
-    for prog in progs.iter() {
-        if run.has_violation() {
-            return;
-        }
-        let obs = match guard::lib(|| execute(&b, prog)) {
-            Ok(o) => o,
-            Err(e) => {
-                run.report(Violation::new("C14", "panic", "", format!("program panicked: {e}"), prog_json(p, prog)));
-                return;
-            }
-        };
-        match judge(run, p, &legal, prog, &obs) {
-            Ok(t) => tol += t,
-            Err((clause, shape, detail)) => {
-                let v = Violation::new("C14", &clause, &shape, format!("{detail}\n  position {}\n  program {}", p.fen(), prog_json(p, prog)), prog_json(p, prog));
-                if run.report(v) {
-                    return;
+    // dense positions have hundreds of thousands of programs: parallel inside the position as well
+    let sums = progs
+        .par_chunks(512)
+        .map(|chunk| {
+            let (mut phases, mut nexts, mut lens, mut withrem, mut withep, mut tol) = (0u64, 0u64, 0u64, 0u64, 0u64, 0u64);
+            for prog in chunk {
+                if run.has_violation() {
+                    break;
                 }
+                crumb_pos(p, None);
+                let obs = match guard::lib(|| execute(&b, prog)) {
+                    Ok(o) => o,
+                    Err(e) => {
+                        run.report(Violation::new("C14", "panic", "", format!("program panicked: {e}"), prog_json(p, prog)));
+                        break;
+                    }
+                };
+                match judge(run, p, &legal, prog, &obs) {
+                    Ok(t) => tol += t,
+                    Err((clause, shape, detail)) => {
+                        let v = Violation::new("C14", &clause, &shape, format!("{detail}\n  position {}\n  program {}", p.fen(), prog_json(p, prog)), prog_json(p, prog));
+                        if run.report(v) {
+                            break;
+                        }
+                    }
+                }
+                phases += obs.len() as u64;
+                nexts += obs.iter().map(|o| o.yielded.len() as u64 + 1).sum::<u64>();
+                lens += obs.iter().map(|o| o.lens.len() as u64).sum::<u64>();
+                withrem += (!prog.removals.is_empty()) as u64;
+                withep += prog.removals.iter().any(|r| matches!(r, Removal::Move(m) if p.is_ep(*m))) as u64;
             }
-        }
-        phases += obs.len() as u64;
-        nexts += obs.iter().map(|o| o.yielded.len() as u64 + 1).sum::<u64>();
-        lens += obs.iter().map(|o| o.lens.len() as u64).sum::<u64>();
-        withrem += (!prog.removals.is_empty()) as u64;
-        withep += prog.removals.iter().any(|r| matches!(r, Removal::Move(m) if p.is_ep(*m))) as u64;
+            [phases, nexts, lens, withrem, withep, tol]
+        })
+        .reduce(|| [0u64; 6], |a, b| [a[0] + b[0], a[1] + b[1], a[2] + b[2], a[3] + b[3], a[4] + b[4], a[5] + b[5]]);
+    if run.has_violation() {
+        return;
     }
+    let [phases, nexts, lens, withrem, withep, tol] = sums;
     nprog.fetch_add(progs.len() as u64, Ordering::Relaxed);
     run.add("programs", progs.len() as u64);
     run.add("phases_iterated", phases);
